@@ -38,7 +38,9 @@ CHECKS = {
                   "merge, release and failure path, one action per queue/event/API operation) model-checked exhaustively with TLC "
                   "(safety + liveness under WF); the real ExecutionState pipeline executed under a deterministic scheduler with real "
                   "serialized sizes around the limits and adversarial window timing; every recorded execution validated against "
-                  "the spec by TLC trace validation (BatcherTrace.tla) plus direct oracles on order, tokens, limits and release",
+                  "the spec by TLC trace validation (BatcherTrace.tla) plus direct oracles on order, tokens, limits and release; "
+                  "refinement of the FIFO/Flush abstraction (Pipe.tla) checked by TLC; spec -> code: behaviours sampled by TLC from "
+                  "BatcherGen.tla are forced onto the real pipeline by a guided scheduler and must be followed event by event",
         text="Exhaustive model checking of the checkpoint pipeline for 2-3 producers, every arrival interleaving, every window "
              "closing, sizes incl. oversize, every sync pattern and an API failure at any call; bound to the code by trace "
              "validation of hundreds to thousands of real schedules (DFS + random/PCT). Two genuine defects found this way were "
@@ -48,7 +50,9 @@ CHECKS = {
         technique="TLA+ spec OrderedLock.tla model-checked exhaustively with TLC (safety + liveness under WF); real "
                   "OrderedLock/OrderedCounter executed under a deterministic scheduler (preemption-bounded DFS + random/PCT "
                   "schedules, exception injected in any one critical section) and every recorded execution validated as a "
-                  "behaviour of the spec by TLC trace validation (OrderedLockTrace.tla)",
+                  "behaviour of the spec by TLC trace validation (OrderedLockTrace.tla); reset() at any moment by one more caller; "
+                  "spec -> code: every complete behaviour of OrderedLockGen.tla (enumerated by TLC for small constants, simulated for "
+                  "larger ones) is forced onto the real lock by a guided scheduler and must be followed event by event",
         text="Exhaustive model checking of the lock protocol at primitive-operation granularity for 3 threads x 2 rounds and "
              "any single raising critical section (mutual exclusion, FIFO, break semantics, gap-free counter, termination), "
              "bound to the code by validating hundreds to thousands of real interleavings (explored systematically, not by "
